@@ -116,6 +116,23 @@ func C08(e *Env) {
 
 	// R08.3
 	c08KeyOrder(e)
+	// the generated file must not depend on what was at the -o path before
+	r.Rule("R10.1", "the output is written by exactly one os.WriteFile (create-or-truncate, whole content): the generated file is a function of the inputs, not of a previous file at the -o path (shared with C10)", 1)
+	nw := 0
+	for _, c := range moduleCalls(e.P) {
+		if fileMutators[c.name] {
+			key := c.fnKey + " -> " + c.name
+			if c.name == "os.WriteFile" && c.fnKey == "(*internal/cmd/runner.StepCodeGenerator).Run" {
+				nw++
+				r.Hold("R10.1", key, "the one file write", e.P.Pos(c.ins.Pos()))
+			} else {
+				r.Undecide("R10.1", key, "file mutation through an API whose truncation semantics are not reviewed (a file opened without O_TRUNC keeps the tail of a longer previous output)", e.P.Pos(c.ins.Pos()))
+			}
+		}
+	}
+	if nw != 1 {
+		r.Violate("R10.1", "internal/cmd/runner.StepCodeGenerator.Run#writes", fmt.Sprintf("%d os.WriteFile calls in the code generator, expected exactly 1", nw), nil)
+	}
 
 	r.NotCovered = append(r.NotCovered,
 		"byte identity of repeated runs as such (no execution)",
